@@ -76,6 +76,13 @@ class Prop(PropBase):
                 cfg = scen.rand_cfg(r2, dense=dn, wait=1, start=st, end=en, min=0.0, max=0.0, pktcb=0)
                 scn_all.append(scen.mixed_scenario(r2, self.L, 'RSBP', f'c07_RSBP_rev_{k}_{"d" if dn else "n"}', cfg, malformed_p=0.0, badblk_p=0.0, gap_p=0.02, difop_at=0,
                                                    bpv4=(k % 2 == 1), reversal=1, start_az=r2.choice([None, 2900, 11900, 35900]), step=r2.choice([None, 200, 2000]), npk=4))
+        # revolutions with very few valid points (0, 1, lasers-1, lasers, ...): dense output delivers each non-empty frame with exactly
+        # its valid points (a frame smaller than one column of lasers included), and omits only the empty ones
+        for ti, t in enumerate(scen.MECH):
+            seed = rng.randrange(1 << 30)
+            for dn in (0, 1):
+                import random
+                scn_all.append(scen.sparse_scenario(random.Random(seed), self.L, t, f'c07_sparse_{t}_{"d" if dn else "n"}', dense=dn, angle=[0, 18000, 35999][ti % 3]))
         out.append(('drv', '\n'.join(scn_all) + '\n'))
         return out
 
